@@ -1,23 +1,10 @@
 """C20 job table: polynomial values are invariant under every change of representation."""
-import os
-
 from conf.common import *  # noqa
 
-_CORE = ["bn254", "bls12-381", "bw6-761"]
-
-
 def _curves(tier):
-    """quick: the fixed core set plus two of the remaining four instantiations rotating with VERIF_SEED
-    (all four are visited over two consecutive seeds); thorough: all seven."""
-    if tier != "quick":
-        return list(PAIRING)
-    rest = [c for c in PAIRING if c not in _CORE]
-    try:
-        seed = int(os.environ.get("VERIF_SEED", "1") or "1")
-    except ValueError:
-        seed = 1
-    i = seed % len(rest)
-    return _CORE + [rest[i], rest[(i + 2) % len(rest)]]
+    """All seven instantiations in both tiers (the quick tier costs about 6 CPU-minutes, well inside its budget;
+    a rotating subset would leave a defect in one generated copy unseen at a given seed)."""
+    return list(PAIRING)
 
 
 def _poly_fields(tier):
@@ -38,18 +25,24 @@ PROP = dict(
         "w = Domain.Generator and s = Domain.FrMultiplicativeGen are taken from the library and validated by the reference "
         "(w has order exactly n, s^n != 1, fft.Generator(n) = w, Generator(2n)^2 = Generator(n))",
         "Evaluate in LagrangeCoset basis is asserted only after ToLagrangeCoset has stored the coset (DESIGN §11); domains are "
-        "created with precomputed tables; grow-by-conversion only from Canonical/Regular objects (zero padding in natural order)",
+        "created with precomputed tables",
+        "conversion on a larger domain (grow) is generated for Canonical objects in both layouts, incl. objects wrapping buf[:n] of a "
+        "buffer with non-zero spare capacity; for Lagrange/LagrangeCoset objects the domain passed must be the one the values live "
+        "on (the object does not record it): another cardinality is a caller error, not generated (the library does not reject it)",
         "GetCoeff in Canonical basis is asserted for shift 0 only (the doc comment does not define shifted coefficients)",
         "the layout left behind by a basis conversion is not documented: the model adopts the flag the object reports and asserts "
         "that flag and stored entries agree",
         "not asserted (undocumented): Polynomial.Sub / Equal on mismatching lengths, Add/Eval/InterpolateOnRange on empty input, "
         "MultiLin.Evaluate with fewer coordinates than variables, ratio builders when a denominator factor vanishes",
-        "fix patches /verif/fixes/F12[a-f]-*.patch are applied to the /repo working tree (defect cluster F12, DESIGN §6)",
+        "fix patches /verif/fixes/F12[a-g]-*.patch are applied to the /repo working tree (defect cluster F12, DESIGN §6)",
     ],
     mandatory_all=["eval_x:domain", "eval_x:coset", "eval_shift:neg", "eval_shift:gt5", "eval_shift:ge_size", "coeff_shift:neg",
                    "last_op:WriteRead", "last_op:GrowCoset", "size:1", "op:ShallowClone", "mode:pipeline", "mode:satisfied",
                    "mode:shuffled", "reuse_same_n", "other_n_after_cached", "op:Fold", "op:Eq", "linear_lagrange_semantic",
-                   "F12a", "F12b", "F12c", "F12d", "F12e", "F12f"],
+                   "F12a", "F12b", "F12c", "F12d", "F12e", "F12f", "F12g",
+                   "grow_from:canonical/bitreverse", "grow_from:canonical/regular", "grow_into_spare", "init_spare_capacity",
+                   "polys:7+", "eval_after_Clone:lagrangecoset/regular", "eval_after_Clone:lagrangecoset/bitreverse",
+                   "eval_after_ShallowClone:lagrangecoset/regular", "eval_after_WriteRead:lagrangecoset/bitreverse"],
     jobs=[
         dict(name="regress", pkg="c20", run="^TestC20_(Regress.*|RefSelf)$", rapid=False),
         dict(name="exhaustive", pkg="c20", run="^TestC20_Exhaustive$", rapid=False, shards=_curves, seeds=(3, 8),
